@@ -643,7 +643,7 @@ HXPread(accrec_t *access_rec, int32 length, void *data)
         HGOTO_ERROR(DFE_RANGE, FAIL);
 
     /* adjust length if it falls off the end of the element */
-    if ((length == 0) || (access_rec->posn + length > info->length))
+    if ((length == 0) || (length > info->length - access_rec->posn)) /* no posn + length: it can overflow */
         length = info->length - access_rec->posn;
     /* positioned at or beyond the end of the element: nothing to read there */
     if (length < 0)
